@@ -192,6 +192,12 @@ func (g *gen) genNew() {
 			}
 		}
 		kind := r.Pick([]string{"I", "I", "F", "F", "B", "S", "S", "T", "EN", "EN", "CI", "CF", "CB", "CS"})
+		if g.opt["enumheavy"] != "" && r.P(1, 2) {
+			kind = r.Pick([]string{"EN", "EN", "ENBIG"})
+		}
+		if kind == "ENBIG" && c > 0 {
+			kind = "EN"
+		}
 		if malformed && r.P(1, 6) {
 			kind = "U"
 		}
@@ -222,6 +228,45 @@ func (g *gen) genNew() {
 				ct = append(ct, tx.CBool(d[i]))
 			}
 			data[name] = d
+		case "ENBIG":
+			// an enum whose cardinality sits at a word boundary of the bit set or at the 255 limit; fixes the row count
+			k := r.PickInt([]int{1, 2, 63, 64, 65, 127, 128, 129, 191, 192, 193, 254, 255, 256, 257, 300})
+			n = k + r.Intn(3)
+			cn = n
+			d := make([]*string, cn)
+			ct = append(ct, "S", tx.Int(cn))
+			for i := range d {
+				v := "v" + strconv.Itoa(i%k)
+				if r.P(1, 40) {
+					d[i] = nil
+				} else {
+					d[i] = &v
+				}
+				ct = append(ct, tx.CStr(d[i]))
+			}
+			data[name] = d
+			enums[name] = nil
+			if r.P(1, 3) && k <= 255 {
+				decl := make([]string, k)
+				for i := range decl {
+					decl[i] = "v" + strconv.Itoa((i*7)%k) // a declared order different from first appearance (when 7 and k are coprime)
+				}
+				seen := map[string]bool{}
+				uniq := decl[:0]
+				for _, v := range decl {
+					if !seen[v] {
+						seen[v] = true
+						uniq = append(uniq, v)
+					}
+				}
+				for i := 0; i < k; i++ {
+					v := "v" + strconv.Itoa(i)
+					if !seen[v] {
+						uniq = append(uniq, v)
+					}
+				}
+				enums[name] = uniq
+			}
 		case "S", "EN":
 			d := make([]*string, cn)
 			ct = append(ct, "S", tx.Int(cn))
@@ -769,6 +814,9 @@ func (g *gen) genLeaf(f *hframe, bad bool) clause {
 			toks = append(toks, "sl", tx.Int(k))
 			for i := range vs {
 				vs[i] = strAlphabet[r.Intn(len(strAlphabet))]
+				if col.typ == "e" && len(col.vals) > 0 && r.P(2, 3) {
+					vs[i] = col.vals[r.Intn(len(col.vals))]
+				}
 				toks = append(toks, tx.HexS(vs[i]))
 			}
 			fl.Arg = vs
